@@ -380,11 +380,17 @@ where
 }
 
 /// Defaults to `wincode::int_encoding::VarInt`.
-type FixIntConfig = wincode::config::Configuration;
+type FixIntConfig = wincode::config::Configuration<
+    true,
+    { wincode::config::PREALLOCATION_SIZE_LIMIT_DISABLED },
+    wincode::len::BincodeLen,
+    wincode::int_encoding::LittleEndian,
+    wincode::int_encoding::FixInt,
+>;
 /// The default config with the last parameter set to `VarInt`
 type VarIntConfig = wincode::config::Configuration<
     true,
-    4194304,
+    { wincode::config::PREALLOCATION_SIZE_LIMIT_DISABLED },
     wincode::len::BincodeLen,
     wincode::int_encoding::LittleEndian,
     wincode::int_encoding::VarInt,
@@ -1417,13 +1423,13 @@ where
         // Note that the configuration types use associated consts, and thus these configurations represent distinct types.
         let (grm_data, stable_data): (Vec<u8>, Vec<u8>) = match serialisation_format {
             SerialisationFormat::FixedSizeInteger => {
-                let config = wincode::config::Configuration::default().with_fixint_encoding();
+                let config = wincode::config::Configuration::default().with_fixint_encoding().disable_preallocation_size_limit();
                 let grm = wincode::config::serialize(grm, config)?;
                 let stable = wincode::config::serialize(stable, config)?;
                 (grm, stable)
             }
             SerialisationFormat::VariableSizedInteger => {
-                let config = wincode::config::Configuration::default().with_varint_encoding();
+                let config = wincode::config::Configuration::default().with_varint_encoding().disable_preallocation_size_limit();
                 let grm = wincode::config::serialize(grm, config)?;
                 let stable = wincode::config::serialize(stable, config)?;
                 (grm, stable)
@@ -1444,10 +1450,10 @@ where
                         // which uses const generics. Thus the two config parameters here are not actually of the same type.
                         match __SERIALISATION_FORMAT {
                             ::lrpar::ctbuilder::SerialisationFormat::FixedSizeInteger => {
-                                ::lrpar::ctbuilder::_reconstitute(__GRM_DATA, __STABLE_DATA, ::lrpar::ctbuilder::wincode::config::Configuration::default().with_fixint_encoding())
+                                ::lrpar::ctbuilder::_reconstitute(__GRM_DATA, __STABLE_DATA, ::lrpar::ctbuilder::wincode::config::Configuration::default().with_fixint_encoding().disable_preallocation_size_limit())
                             }
                             ::lrpar::ctbuilder::SerialisationFormat::VariableSizedInteger => {
-                                ::lrpar::ctbuilder::_reconstitute(__GRM_DATA, __STABLE_DATA, ::lrpar::ctbuilder::wincode::config::Configuration::default().with_varint_encoding())
+                                ::lrpar::ctbuilder::_reconstitute(__GRM_DATA, __STABLE_DATA, ::lrpar::ctbuilder::wincode::config::Configuration::default().with_varint_encoding().disable_preallocation_size_limit())
                             }
                             _ => {
                                 panic!("Parser source was generated using unknown `SerialisationFormat`: {:?}", #serialisation_format_str)
